@@ -95,7 +95,7 @@ def ref_apply(L, rec, mod, grad_mode=None, contiguous=False, flip_rg=False):
         leaves = [leaf] if leaf.requires_grad else []
         oc, val = _run(lambda: call_with_mode(torch, lambda: mod(x), gm))
     else:
-        low, highs, leaves = thaw_pyramid(rec["pyr"])
+        low, highs, leaves = thaw_pyramid(rec["pyr"], contiguous=contiguous)
         oc, val = _run(lambda: call_with_mode(torch, lambda: mod((low, highs)), gm))
     return oc, val, leaves
 
@@ -139,9 +139,11 @@ def ref_record(L_unused, rec, how="recipe"):
         L = fresh("float32")
         op = rec["op"]
         c = L.coeffs
-        fn = {"biort": lambda: c.biort(op["name"]), "level1": lambda: c.level1(op["name"]),
-              "level1c": lambda: c.level1(op["name"], compact=True),
-              "qshift": lambda: c.qshift(op["name"])}[op["loader"]]
+        from .world import name_form
+        nm = name_form(op["name"], op.get("form", "plain"))
+        fn = {"biort": lambda: c.biort(nm), "level1": lambda: c.level1(nm),
+              "level1c": lambda: c.level1(nm, compact=True),
+              "qshift": lambda: c.qshift(nm)}[op["loader"]]
         oc, val = _run(fn)
         return oc, val, []
     if kind in ("construct", "restart"):
@@ -439,7 +441,8 @@ def check_c16(w, rec, st):
     if bad:
         w.violation("D1-output-dtype", rec, "input dtype %s but %s" % (in_dt, bad))
     # (iv) strided input == contiguous copy
-    if kind == "call" and rec["op"]["arg"].get("layout", "contig") != "contig":
+    strided_pyr = kind == "inverse" and (rec["pyr"][3] or any(rec["pyr"][4]))
+    if strided_pyr or (kind == "call" and rec["op"]["arg"].get("layout", "contig") != "contig"):
         L = fresh(rec["recipe"][0][3])
         mod = build_from_recipe(L, rec["recipe"])
         oc1, v1, _ = ref_apply(L, rec, mod)
